@@ -16,6 +16,7 @@ arithmetic (regex + int, not treadmill.utils), independently of the model.
 """
 import collections
 import copy
+import random
 import re
 
 import fw
@@ -24,7 +25,7 @@ NAME = 'reserve'
 DRIVER = 'Reserve'
 CASES = {'quick': 6000, 'thorough': 100000, 'search': 8000}
 RULE = {
-    'C19': 'partitions of 1-2 cells with 0-3 per-trait limits (sometimes none defined: zero-capacity '
+    'C19': 'partitions of 1-2 cells with 0-3 per-trait limits (one case in ten: 11-15 limits, read back through the real _ldap codec; sometimes none defined: zero-capacity '
            'fallback), 0-8 stored reservations with random traits in random equivalent unit '
            'spellings (K/M/G, case, leading zeros, non-ASCII decimal digits, trailing newline), then '
            '3-10 requests: create / update (existing id, other partition, with and without traits) / '
@@ -242,6 +243,11 @@ def _time_string(rng):
 
 def gen_case(rng, pid, tier):
     malformed = rng.random() < 0.2
+    # a side stream (does not disturb the main one): one case in ten has partitions with 11-15 limits -
+    # the directory numbers list options in hex, the reader has to find all of them
+    wrng = random.Random(repr(rng.getstate()[1][:4]))
+    wide = wrng.random() < 0.1
+    TR = TRAITS + ['t%d' % i for i in range(12)] if wide else TRAITS       # pylint: disable=invalid-name
     cells = ['c1'] if rng.random() < 0.6 else ['c1', 'c2']
     parts = []
     pnames = {}
@@ -252,7 +258,7 @@ def gen_case(rng, pid, tier):
             cap = (rng.choice([100, 400, 1000, 2500]), rng.choice([1, 4, 16, 64]) * 1024 ** 2,
                    rng.choice([1, 4, 16, 64]) * 1024 ** 2)
             limits = []
-            for t in rng.sample(TRAITS, rng.choice([0, 1, 1, 2, 2, 3])):
+            for t in rng.sample(TR, wrng.randint(11, 15) if wide and wrng.random() < 0.7 else rng.choice([0, 1, 1, 2, 2, 3])):
                 f = [rng.choice([0.0, 0.2, 0.2, 0.4, 0.4, 0.6, 0.6, 1.0, 1.0]) for _ in range(3)]      # 0.0: a limit of zero
                 lv = (int(cap[0] * f[0]), int(cap[1] * f[1]) // 1024 * 1024, int(cap[2] * f[2]) // 1024 * 1024)
                 limits.append({'trait': t, 'cpu': spell_cpu(rng, lv[0], False),
@@ -332,7 +338,7 @@ def gen_case(rng, pid, tier):
     for i in range(nres):
         cell = rng.choice(cells)
         part = rng.choice(pnames[cell] + (['px'] if rng.random() < 0.05 else []))
-        traits = rng.sample(TRAITS, rng.choice([0, 1, 1, 2, 3]))
+        traits = rng.sample(TR, rng.choice([0, 1, 1, 2, 3]))
         if rng.random() < 0.03 and traits:
             traits.append(traits[0])
         alloc = 't/r%d' % i
@@ -356,7 +362,7 @@ def gen_case(rng, pid, tier):
             ops.append(['unit', fn, _time_string(rng) if fn == 'sec' and rng.random() < 0.6 else _unit_string(rng)])
             continue
         part = rng.choice(pnames[cell] + (['px'] if rng.random() < 0.04 else []))
-        traits = rng.sample(TRAITS, rng.choice([0, 1, 1, 2, 2, 3]))
+        traits = rng.sample(TR, rng.choice([0, 1, 1, 2, 2, 3]))
         if r < 0.40 or not existing:
             kind = 'create'
             if rng.random() < 0.07 and existing:
@@ -389,7 +395,7 @@ def gen_case(rng, pid, tier):
             part = st['partition']
             rsrc = {k: st[k] for k in ('cpu', 'disk', 'memory')}
             lim_traits = [l['trait'] for l in mon.part(part, cell)['limits']] if mon.wellformed(cell, part) else []
-            extra = rng.choice(lim_traits) if lim_traits and rng.random() < 0.8 else rng.choice(TRAITS)
+            extra = rng.choice(lim_traits) if lim_traits and rng.random() < 0.8 else rng.choice(TR)
             traits = [t for t in st['traits'] if isinstance(t, str)]
             if extra not in traits:
                 traits = traits + [extra]
@@ -533,7 +539,29 @@ class _FakePartition:
         key = (ident[0], ident[1])
         if key not in self.parts:
             raise self.exc.NoSuchObjectResult(ident)
-        return copy.deepcopy(self.parts[key])
+        return _through_ldap('Partition', dict(copy.deepcopy(self.parts[key]), _id=ident[0]), ('_id',))
+
+
+def _through_ldap(cls, raw, drop=()):
+    """What the directory hands back for a stored object: the real `to_entry` / `_remove_empty` /
+    `from_entry` of treadmill.admin._ldap (the reader that feeds `_check_capacity`).  An object the
+    directory cannot hold (a non-string quantity of the malformed stream) is returned as it is."""
+    from treadmill.admin import _ldap
+    adm = getattr(_ldap, cls)(None)
+    lt = [l.get('trait') for l in raw.get('limits', [])]
+    try:
+        if len(set(lt)) != len(lt):      # two limits for one trait: `_to_obj_list` is keyed by trait, no
+            raise ValueError(lt)         # object written through the codec looks like that - handed back raw
+        entry = _ldap._remove_empty(adm.to_entry(copy.deepcopy(raw)))      # pylint: disable=protected-access
+    except Exception:       # pylint: disable=broad-except
+        out = copy.deepcopy(raw)
+        for k in drop:
+            out.pop(k, None)
+        return out
+    out = adm.from_entry(entry)
+    for k in drop:
+        out.pop(k, None)
+    return out
 
 
 class _FakeAdmin:
@@ -694,8 +722,14 @@ def run_impl(case, pid):
             continue
         parts[(p['name'], p['cell'])] = {'cpu': p['cpu'], 'disk': p['disk'], 'memory': p['memory'],
                                          'limits': copy.deepcopy(p['limits'])}
+        # the directory hands the limits back in its own order (options sorted by trait); which of two
+        # exceeded limits an error names follows that order, so the model is given the written limits
+        # in the order read back - a limit the reader loses stays in the model's list
+        back = _through_ldap('Partition', dict(copy.deepcopy(parts[(p['name'], p['cell'])]), _id=p['name']))
+        order = [l.get('trait') for l in back.get('limits', [])]
+        lims = sorted(p['limits'], key=lambda l: order.index(l['trait']) if l['trait'] in order else len(order))
         lim = ';'.join('%s:%s:%s:%s' % (enc(l['trait']), enc(l['cpu']), enc(l['disk']), enc(l['memory']))
-                       for l in p['limits']) or '[]'
+                       for l in lims) or '[]'
         run.op('part %s %s %s %s %s %s' % (enc(p['cell']), enc(p['name']), enc(p['cpu']), enc(p['disk']),
                                            enc(p['memory']), lim), 'ok')
     for r in case['resv']:
